@@ -93,6 +93,8 @@ def run(ck, tier):
 
     ck.rule("C01.arm-uniform", "every arm of the kernel dispatches uses the slicing parameters that its siblings use", floor=10)
     arms.check(ck, F, "C01.arm-uniform", arms.load_table())
+    ck.rule("C01.sink-uniform", "every arm of a dispatch lets the slicing variable influence each output (return value, `&mut` parameter) it influences in the sibling arms", floor=20)
+    arms.check_sinks(ck, F, "C01.sink-uniform", arms.load_sink_table())
     pairs.check_threshold(ck, F, "C01.inline-view-threshold", ["arrow_select", "arrow_data", "arrow_array", "arrow_ord", "arrow_string", "arrow_cast", "arrow_row", "arrow_ipc", "arrow_json", "parquet"], 18)
     pairs.check(ck, F, "C01.buffer-offset-pair", ["arrow_arith", "arrow_buffer", "arrow_select", "arrow_data", "arrow_array", "arrow_ord", "arrow_string", "arrow_cast"], 15)
     ck.note("Decided: unforgeability, validation obligations and retention of constructor checks, gating and audited inventory of unchecked construction in decoders, "
